@@ -49,6 +49,22 @@ def valid_port_facts(f, p):
     return notbool and isint and lo and hi
 
 
+_INT_P = ("call", ("builtin", "int"), (("param", "port"),), ())
+
+
+def _unint(t):
+    """`int(port)` is the validated port as a number (PRT6 judges where it is needed): for the value rules it is the port."""
+    if not isinstance(t, tuple):
+        return t
+    if t == _INT_P:
+        return ("param", "port")
+    return tuple(_unint(x) for x in t)
+
+
+def _unint_facts(f):
+    return {_unint(k): v for k, v in f.items()}
+
+
 def prt1(ctx: Ctx):
     model = ctx.model
     rule = "PRT1"
@@ -62,19 +78,19 @@ def prt1(ctx: Ctx):
         seen = {}
         for e in r.by_kind("call"):
             # the port reaches an authority: argument of a package function, or formatted into a string
-            if e.func[0] != "global" or not any(a == p for a in e.args) and not any(v == p for _k, v in e.kwargs):
+            if e.func[0] != "global" or not any(_unint(a) == p for a in e.args) and not any(_unint(v) == p for _k, v in e.kwargs):
                 continue
-            ok = all(valid_port_facts(f, p) for f in alternatives(e.state.facts, p))
+            ok = all(valid_port_facts(f, p) for f in alternatives(_unint_facts(e.state.facts), p))
             seen.setdefault((id(e.node), show(e.func)), [e, []])[1].append(ok)
         for e in r.by_kind("store_attr"):
             if e.attr == "_netloc" and any(t == p for t in walk(e.value)) and e.value[0] == "fstr":
-                ok = all(valid_port_facts(f, p) for f in alternatives(e.state.facts, p))
+                ok = all(valid_port_facts(f, p) for f in alternatives(_unint_facts(e.state.facts), p))
                 seen.setdefault((id(e.node), "fstr"), [e, []])[1].append(ok)
         # ... and validation dominates every normal return, not only the re-assembly: an early `return self` must not
         # accept a value the checks would have rejected (True == 1, 8080.0 == 8080)
         rets = {}
         for s, v, node in r.returns:
-            ok = all(valid_port_facts(f, p) for f in alternatives(s.facts, p))
+            ok = all(valid_port_facts(f, p) for f in alternatives(_unint_facts(s.facts), p))
             rets.setdefault(id(node), [node, v, []])[2].append(ok)
         for node, v, oks in rets.values():
             ctx.instance(rule)
@@ -110,6 +126,7 @@ def prt2(ctx: Ctx):
                         seen.add(key)
                         ctx.instance(rule)
                         other, get = (t[2], t[3]) if any(x == DP for x in walk(t[3])) else (t[3], t[2])
+                        other = _unint(other)
                         # an (in)equality test of a port against the default of the URL's own scheme, either way round; which
                         # branch elides the port is judged below, on what each path does
                         # the default is looked up with .get(scheme), or by subscript under a handled KeyError (no default: no test)
@@ -149,6 +166,7 @@ def _elision_polarity(ctx, rule, model, fi, pairs):
     except AnalysisError:
         r = analyze(model, fi)
     problems = []
+    pairs = {(_unint(p), g) for p, g in pairs}
     ports = {p for p, _g in pairs}
 
     def eq(p, f):
@@ -175,14 +193,15 @@ def _elision_polarity(ctx, rule, model, fi, pairs):
                             and True in eq(p_[1], f):
                         problems.append((node, f"{show(t)[:60]} writes the port although it equals the default"))
     for s_, v, node in r.returns:
+        v = _unint(v)
         if v[0] == "cmp" and any(p in (v[2], v[3]) for p in ports) and any(g in (v[2], v[3]) for _p, g in pairs):
             if v[1] != "Eq":
                 problems.append((node, f"the result {show(v)[:60]} is the negation of the default-port test"))
             continue
-        judge(v, s_.facts, node)
+        judge(_unint(v), _unint_facts(s_.facts), node)
     for e in r.events:
         if e.kind in ("store_attr", "store_sub") and e.kind == "store_attr" and e.attr == "_netloc":
-            judge(e.value, e.state.facts, e.node)
+            judge(_unint(e.value), _unint_facts(e.state.facts), e.node)
     ctx.instance(rule)
     ctx.ob(rule, fi.qual, "which branch elides the port", not problems, problems[0][1] if problems else "",
            where(fi, problems[0][0] if problems else fi.node), sample="port left out iff absent or equal to the scheme default")
@@ -378,7 +397,10 @@ def prt6(ctx: Ctx):
         if not model.has_func(q):
             raise AnalysisError(f"anchor vanished: {q}")
         fi = model.func(q)
-        r = analyze(model, fi)
+        try:
+            r = analyze(model, fi, merge=False)     # "None, or normalised" is a per-path fact that merging the two branches loses
+        except AnalysisError:
+            r = analyze(model, fi)
         ctx.functions.add(q)
         raw_uses = []
         n_uses = 0
@@ -397,9 +419,11 @@ def prt6(ctx: Ctx):
                     if used is None or not any(x == P for x in walk(used)):
                         continue
                     n_uses += 1
-                    exact = truth(("cmp", "Is", ("call", ("builtin", "type"), (P,), ()), ("builtin", "int")), e.state.facts) is True
-                    if used == P and not exact and truth(("cmp", "Is", P, NONE), e.state.facts) is not True:
-                        raw_uses.append(e.node)
+                    for f_ in alternatives(e.state.facts, P):
+                        exact = truth(("cmp", "Is", ("call", ("builtin", "type"), (P,), ()), ("builtin", "int")), f_) is True
+                        if used == P and not exact and truth(("cmp", "Is", P, NONE), f_) is not True:
+                            raw_uses.append(e.node)
+                            break
         ctx.instance(rule)
         if not n_uses:
             raise AnalysisError(f"PRT6: {q} does not hand its port to the authority printer (unknown idiom)")
